@@ -62,7 +62,7 @@ func WorkerMain(e Engine, opt RunOpt, seed uint64, start, stride, count, offset 
 			if !seen[v.Sig] && len(out.Violations) < 4 {
 				seen[v.Sig] = true
 				v.Property = e.ID()
-				v.Leg, v.Tier, v.Seed, v.Run, v.RunSeed = opt.Leg, opt.Tier, seed, idx, rs
+				v.Leg, v.Tier, v.Params, v.Seed, v.Run, v.RunSeed = opt.Leg, opt.Tier, opt.Params, seed, idx, rs
 				v.Tape = t.Recorded()
 				out.Violations = append(out.Violations, v)
 			}
